@@ -491,6 +491,7 @@ func runCase(g *dag.Graph, ops []op, seed uint64) {
 	}
 	tr := newTruth(g)
 	ctx := context.Background()
+	everStray := map[int]bool{} // every stray file ever written (observed whether or not it is expected to exist)
 	var out []string
 	nontrivial := false
 	failed := false
@@ -563,6 +564,7 @@ func runCase(g *dag.Graph, ops []op, seed uint64) {
 				panic(werr)
 			}
 			expStrays[o.N] = true
+			everStray[o.N] = true
 			kind = "stray"
 		case 'D':
 			err, hung = w.guarded(func(c context.Context) error { return store.Delete(c, g.Nodes[o.N].Desc) })
@@ -618,7 +620,7 @@ func runCase(g *dag.Graph, ops []op, seed uint64) {
 			break
 		}
 		res := errName(err)
-		ob := w.observe(ctx, expStrays)
+		ob := w.observe(ctx, everStray)
 		out = append(out, o.String()+"="+res+"/"+ob.String())
 
 		// ---- the oracle: the property's statement on the real store ----
@@ -700,6 +702,27 @@ func runCase(g *dag.Graph, ops []op, seed uint64) {
 	}
 	in := modelInput(g, ops, seed)
 	run.Case(id, in, strings.Join(out, " "))
+	// the same history again on fresh stores: only Go's map iteration order differs between
+	// the runs, so the observable outcome must be identical
+	if !failed {
+		reps := repeats
+		if !run.Thorough() && run.Evaluations%2 == 0 {
+			reps = 1
+		}
+		for k := 1; k < reps; k++ {
+			again, hung := execOnly(g, ops)
+			if hung {
+				hangs++
+				fail("order-hang", fmt.Sprintf("repetition %d did not return within the watchdog", k))
+				break
+			}
+			if again != strings.Join(out, " ") {
+				fail("order-dependent", fmt.Sprintf("repetition %d of the same history gave %q, first run gave %q", k, again, strings.Join(out, " ")))
+				break
+			}
+			run.Count("repetitions")
+		}
+	}
 	if nontrivial {
 		run.Nontrivial(in)
 	}
@@ -707,6 +730,56 @@ func runCase(g *dag.Graph, ops []op, seed uint64) {
 	if nontrivial {
 		run.Sample(map[string]any{"graph": g.Describe(), "ops": rep.Ops})
 	}
+}
+
+var repeats = 1
+
+// execOnly runs the history on a fresh store and returns the observable string only.
+func execOnly(g *dag.Graph, ops []op) (string, bool) {
+	root, err := os.MkdirTemp("", "c09r-")
+	if err != nil {
+		panic(err)
+	}
+	defer os.RemoveAll(root)
+	store, err := oci.New(root)
+	if err != nil {
+		panic(err)
+	}
+	w := &world{g: g, byDig: map[digest.Digest]int{}, root: root, store: store}
+	for _, n := range g.Nodes {
+		w.byDig[n.Desc.Digest] = n.ID
+	}
+	ctx := context.Background()
+	strays := map[int]bool{}
+	var out []string
+	for _, o := range ops {
+		var err error
+		hung := false
+		switch o.K {
+		case 'P':
+			err = store.Push(ctx, g.Nodes[o.N].Desc, bytes.NewReader(g.Nodes[o.N].Bytes))
+		case 'T':
+			err = store.Tag(ctx, g.Nodes[o.N].Desc, fmt.Sprintf("tag%d", o.T))
+		case 'U':
+			err = store.Untag(ctx, fmt.Sprintf("tag%d", o.T))
+		case 'A':
+			store.AutoGC = o.N == 1
+		case 'S':
+			p := filepath.Join(root, "blobs", strayPath(o.N))
+			os.MkdirAll(filepath.Dir(p), 0o755)
+			os.WriteFile(p, []byte(fmt.Sprintf("stray %d", o.N)), 0o644)
+			strays[o.N] = true
+		case 'D':
+			err, hung = w.guarded(func(c context.Context) error { return store.Delete(c, g.Nodes[o.N].Desc) })
+		case 'G':
+			err, hung = w.guarded(func(c context.Context) error { return store.GC(c) })
+		}
+		if hung {
+			return "", true
+		}
+		out = append(out, o.String()+"="+errName(err)+"/"+w.observe(ctx, strays).String())
+	}
+	return strings.Join(out, " "), false
 }
 
 // ---------- generator ----------
@@ -908,7 +981,8 @@ func main() {
 		run.Finish()
 		return
 	}
-	n := run.Scale(2500, 60000)
+	repeats = run.Scale(2, 3)
+	n := run.Scale(2000, 20000)
 	for i := 0; i < n && hangs < 2; i++ {
 		cs := run.Rand.U64()
 		g, ops := genCase(common.NewRand(cs))
